@@ -98,6 +98,18 @@ func runImpl(cfg int, gas uint64, code, input []byte) (kind string, left uint64,
 	return runOn(state, gas, code, input)
 }
 
+var calleeAddr = common.BytesToAddress([]byte("c10-callee-account-"))
+
+// runImpl2: `code` at the contract account, `callee` at a second account it may STATICCALL
+func runImpl2(cfg int, gas uint64, code, callee, input []byte) (kind string, left uint64, ret []byte) {
+	setCfg(cfg)
+	if !state.Exist(calleeAddr) {
+		state.CreateAccount(calleeAddr)
+	}
+	state.SetCode(calleeAddr, callee)
+	return runOn(state, gas, code, input)
+}
+
 // newState: a private account DB (for the concurrent phase each goroutine owns one)
 func newState() *account.AccountDB {
 	mem, err := db.NewMemDatabase()
@@ -158,6 +170,23 @@ func execLine(line string) string {
 		}
 		kind, left, ret := runImpl(cfg, gas, code, input)
 		lastRet = ret
+		if strings.HasPrefix(kind, "err") {
+			return kind
+		}
+		return fmt.Sprintf("%s %d %s", kind, left, hx.Hex(ret))
+	case "run2":
+		if len(w) != 6 {
+			return "bad-op"
+		}
+		cfg, e1 := strconv.Atoi(w[1])
+		gas, e2 := strconv.ParseUint(w[2], 10, 64)
+		code, e3 := hx.UnHex(w[3])
+		callee, e5 := hx.UnHex(w[4])
+		input, e4 := hx.UnHex(w[5])
+		if e1 != nil || e2 != nil || e3 != nil || e4 != nil || e5 != nil || cfg < 0 || cfg > 7 {
+			return "bad-op"
+		}
+		kind, left, ret := runImpl2(cfg, gas, code, callee, input)
 		if strings.HasPrefix(kind, "err") {
 			return kind
 		}
